@@ -221,6 +221,63 @@ def recrash_nontrivial(c):
     rounds = c[1]
     return any(1 <= rounds[j][1] <= 4 and len(datas[j]) > len(datas[-1]) for j in range(len(rounds) - 1))
 
+# ---- schedules with a Flush in flight: API calls racing the periodic / shutdown Flush ----
+def gen_sched(rng, kind, thorough):
+    def edit():
+        if kind == "u":
+            if rng.random() < 0.7:
+                u = gen_user(rng)
+                return [0, [u, rng.random() < 0.5]]
+            return [1, rng.choice(NAMES + ["admin", "admin"])]
+        if rng.random() < 0.7:
+            return [0, [gen_pat(rng), rng.choice(URLS), rng.random() < 0.3]]
+        return [1, gen_pat(rng)]
+    ev = []
+    for _ in range(rng.randint(0, 3)):
+        ev.append(edit())
+    for _ in range(rng.randint(1, 4 if thorough else 3)):
+        if rng.random() < 0.85:
+            ev.append(edit())                      # something pending, so the Flush reaches the provider
+        ev.append([6, rng.random() < 0.8])         # 20%: the provider fails
+        k = rng.random()
+        if k < 0.75:
+            ev.append([7, edit()])
+        elif k < 0.82:
+            ev.append([7, [4]])                    # a second Flush racing the first
+        elif k < 0.87:
+            ev.append([7, [5]])                    # Reset racing the Flush
+        # (no queries while the Flush is parked: whether Get/All may pass a Flush in flight is not the property's business)
+        ev.append([8])
+        if rng.random() < 0.3:
+            ev.append(rng.choice([[3], edit(), [4]]))
+    if rng.random() < 0.25:
+        ev.append(edit())
+    ev += [[4], [5], [3]]                          # the shutdown flush, a restart, and what it loaded
+    return ev
+
+def sched_project(line):
+    try:
+        v = vlib.vparse(line)
+        def walk(o):
+            if isinstance(o, list):
+                if len(o) == 3 and o[0] == 4 and isinstance(o[1], list) and o[1] and isinstance(o[1][0], list) and len(o[1][0]) == 3:
+                    o[1][0][1] = []
+                    o[1][0][2] = []
+                for x in o:
+                    walk(x)
+        walk(v)
+        return vlib.vs(v)
+    except Exception:
+        return line
+
+def sched_nontrivial(c):
+    # an edit issued while a successful Flush is parked in the provider, and no later edit before the final flush + restart
+    for i in range(len(c) - 2):
+        if c[i][0] == 6 and c[i][1] and c[i + 1][0] == 7 and c[i + 1][1][0] in (0, 1) and c[i + 2][0] == 8:
+            if all(e[0] not in (0, 1, 7) for e in c[i + 3:]):
+                return True
+    return False
+
 def run(ck):
     if not ck.prepare():
         return ck.finish(rule="build failed")
@@ -243,6 +300,11 @@ def run(ck):
     rc, rt = crash_cases(ck, "r", m, gr)
     ck.stream("route-crash", rc, "C18_rcrash_run", "C18_rcrash", "C18_rcrash_ok",
               nontrivial=cn, sig=lambda c, e, o: "route-crash", timeout=3000, sample=1)
+    ns = 2500 if T else 150
+    ck.stream("user-flush-in-flight", [gen_sched(rng, "u", T) for _ in range(ns)], "C18_usched_run", "C18_usched", "C18_usched_ok",
+              nontrivial=sched_nontrivial, sig=lambda c, e, o: "user-flush-in-flight", project=sched_project, timeout=3000, sample=1)
+    ck.stream("route-flush-in-flight", [gen_sched(rng, "r", T) for _ in range(ns)], "C18_rsched_run", "C18_rsched", "C18_rsched_ok",
+              nontrivial=sched_nontrivial, sig=lambda c, e, o: "route-flush-in-flight", project=sched_project, timeout=3000, sample=1)
     mr = 300 if T else 30
     ck.stream("user-crash-then-flush", recrash_cases(ck, "u", mr, gu), "C18_urecrash_run", "C18_urecrash", "C18_urecrash_ok",
               nontrivial=recrash_nontrivial, sig=lambda c, e, o: "user-crash-then-flush", timeout=3000, sample=1,
@@ -277,7 +339,12 @@ def run(ck):
              "are killed at a random hook point or inside the write (torn to 1, n-1 or a random length), the last one completes; "
              "after every round the directory (target + multiset of stray files) is compared with the model and a fresh provider "
              "must load the old or new table, after the completed flush exactly the new one (round_ok); non-trivial = a flush "
-             "interrupted after (part of) its write followed by a completed flush of fewer bytes.  (3) the JSON laws on "
+             "interrupted after (part of) its write followed by a completed flush of fewer bytes.  (2c) flush-in-flight: schedules "
+             "replayed on the real managers — the provider handed to Reset parks inside provider.Flush (20% then fails), meanwhile "
+             "a Save/Del (75%), a second Flush or a Reset is issued from another goroutine (whether it waits for the lock "
+             "is read off the goroutine's wait reason), the provider is released; 1-3 such episodes, 70% end with no further edit "
+             "before the shutdown flush + restart; every API result is judged in the state in which the model (Flush under the "
+             "write lock) runs the call (sok); non-trivial = an edit issued during a successful parked Flush with no later edit.  (3) the JSON laws on "
              "the real decoder: the target overwritten with its own prefixes must not load.  (4) regression: patterns the one-pass CanonicalPath changed on reload ('/a /b/..') must reload unchanged.",
         trusted=["JSON (encoding/json Marshal+Indent / Unmarshal) is an oracle constrained by the laws roundtrip "
                  "(decode (encode t) = Some t), prefix_safe (a strict prefix of an encoding does not decode to a different "
